@@ -111,7 +111,7 @@ Definition tm_run (ops : list top) : tstate := fold_left tm_step ops tm_init.
    until everything that is armed has fired and been read. [tm_settle] runs the current instance, if it is still
    pending, through fire / check / deliver; stopped and superseded instances never fire. The observable is the list of
    pairs the channel reader received, oldest first. *)
-Inductive pop := PRegister (h v : N) | PStop | PSettle | PFire | PResume.
+Inductive pop := PRegister (h v : N) | PStop | PSettle | PFire | PResume | PGiveUp.
 Definition tm_settle (s : tstate) : tstate :=
   match tm_cur s with
   | Some i => match nth_error (tm_insts s) i with
@@ -143,10 +143,22 @@ Fixpoint tm_resume_from (k : nat) (l : list tinst) (s : tstate) : tstate :=
       tm_resume_from (S k) r s'
   end.
 Definition tm_resume (s : tstate) : tstate := tm_resume_from 0 (tm_insts s) s.
+(* time passes and the reader does NOT come back (shutdown: the main loop is gone): a parked instance whose cancel channel
+   was closed sees that and returns; one that was not cancelled stays parked in its send for ever *)
+Fixpoint tm_giveup_from (k : nat) (l : list tinst) (s : tstate) : tstate :=
+  match l with
+  | [] => s
+  | x :: r =>
+      let s' := match ti_phase x with
+                | TSending => if ti_cancelled x then tm_step s (TAbort k) else s
+                | _ => s end in
+      tm_giveup_from (S k) r s'
+  end.
+Definition tm_giveup (s : tstate) : tstate := tm_giveup_from 0 (tm_insts s) s.
 Definition tm_pstep (s : tstate) (o : pop) : tstate :=
   match o with
   | PRegister h v => tm_register h v s | PStop => tm_stop s | PSettle => tm_settle s
-  | PFire => tm_fire_noreader s | PResume => tm_resume s
+  | PFire => tm_fire_noreader s | PResume => tm_resume s | PGiveUp => tm_giveup s
   end.
 Definition tm_public_run (ops : list pop) : list (N * N) :=
   rev (map (fun d => (snd (fst d), snd d)) (tm_delivered (fold_left tm_pstep ops tm_init))).
